@@ -14,7 +14,7 @@ import (
 func init() {
 	register(&Property{
 		ID:          "C01",
-		Explanation: "Structural necessary conditions of exact weighted round-robin. R1 (serialisation): every access to the iterator and pool state (index, currentWeight, the servers slice and its records' weights) on every call path from every exported method of RoundRobin is made with the balancer mutex held exclusively (must-lockset, E2) — with one lock around each complete selection and each pool change every concurrent execution is equivalent to a sequential one, which is the whole content of the 'many callers at once' clause. R2 (reset): in every method that changes the pool (stores the servers field or applies a server option to a record), every path from the change to a successful return passes the iterator reset (stores of the constants -1 / 0 into index / currentWeight), so a window never straddles two weight vectors. R3 (confinement): index/currentWeight are written only by the selection routine (reachable only through exported NextServer/ServeHTTP) and the reset; the servers field only by the upsert/remove methods; record weights only by option closures and the upsert method. R4: the modulo by len(servers) is executed only on the len != 0 edge. R5: the selection routine returns a server only on the true edge of the comparison weight >= current level, and after the level is re-armed from the maximum weight the zero test is passed before any server is returned (zero-weight servers / all-zero pools are never selected). R6: caches of pool-derived data read by the selection are refreshed after every pool change on all exits. R7 (algorithm shape, each clause a necessary condition of exact proportionality): the index advances by exactly one position modulo the pool size; exactly on wrap-around the level is lowered by a value that is a full-range fold of Euclid's gcd over all weights; exactly at level <= 0 it is re-armed with a full-range maximum fold over all weights; a server is taken iff weight(pool[index]) - level >= 0 (normal forms, so spelling variants are accepted). R5 also: on the edge where the re-armed level is 0 the routine passes the iterator reset before returning its error (otherwise the next call steps to index 1 at level 0 and returns a zero-weight server). R8 (= C10.R3): the rebalancer re-applies weights to the wrapped balancer only after changing one, so nothing restarts the rotation while the pool is unchanged.",
+		Explanation: "Structural necessary conditions of exact weighted round-robin. R1 (serialisation): every access to the iterator and pool state (index, currentWeight, the servers slice and its records' weights) on every call path from every exported method of RoundRobin is made with the balancer mutex held exclusively (must-lockset, E2) — with one lock around each complete selection and each pool change every concurrent execution is equivalent to a sequential one, which is the whole content of the 'many callers at once' clause. R2 (reset): in every method that changes the pool (stores the servers field or applies a server option to a record), every path from the change to a successful return passes the iterator reset (stores of the constants -1 / 0 into index / currentWeight), so a window never straddles two weight vectors. R3 (confinement): index/currentWeight are written only by the selection routine (reachable only through exported NextServer/ServeHTTP) and the reset; the servers field only by the upsert/remove methods; record weights only by option closures and the upsert method. R4: the modulo by len(servers) is executed only on the len != 0 edge. R5: the selection routine returns a server only on the true edge of the comparison weight >= current level, and after the level is re-armed from the maximum weight the zero test is passed before any server is returned (zero-weight servers / all-zero pools are never selected). R6: caches of pool-derived data read by the selection are refreshed after every pool change on all exits. R7 (algorithm shape, each clause a necessary condition of exact proportionality): the index advances by exactly one position modulo the pool size; exactly on wrap-around the level is lowered by a value that is a full-range fold of Euclid's gcd over all weights; exactly at level <= 0 it is re-armed with a full-range maximum fold over all weights; a server is taken iff weight(pool[index]) - level >= 0 (normal forms, so spelling variants are accepted). R5 also: on the edge where the re-armed level is 0 the routine passes the iterator reset before returning its error (otherwise the next call steps to index 1 at level 0 and returns a zero-weight server). R8 (= C10.R3): the rebalancer re-applies weights to the wrapped balancer only after changing one, so nothing restarts the rotation while the pool is unchanged. R9 (= C02.R4/R9): identity compares URL fields exactly (no duplicates of one backend), a refused server option stores nothing.",
 		NotDecided: []string{
 			"that the classical gcd / maximum-level sweep selects server i exactly w_i/g times in every window is the known theorem about that algorithm (a paper argument); R7 decides that the code IS that algorithm (index +1 mod n; level lowered by the gcd of all weights exactly on wrap-around; re-armed with the maximum of all weights exactly at level <= 0; a server taken iff weight >= level; Euclid's loop; full folds), not the theorem. A different but equivalent selection algorithm would be reported as UNDECIDED",
 			"error returns of a partially applied multi-option upsert are exempt from R2",
@@ -539,5 +539,6 @@ func mutantsC01() []Mutant {
 		{Name: "servers-read-unlocked", File: f, Old: "func (r *RoundRobin) Servers() []*url.URL {\n\tr.mutex.Lock()\n\tdefer r.mutex.Unlock()\n", New: "func (r *RoundRobin) Servers() []*url.URL {\n", Expect: "C01.R1"},
 		{Name: "allzero-exit-keeps-iterator", File: "roundrobin/rr.go", Old: "\t\t\t\t\tr.resetState()\n\t\t\t\t\treturn nil, errors.New(\"all servers have 0 weight\")", New: "\t\t\t\t\treturn nil, errors.New(\"all servers have 0 weight\")", Expect: "C01.R5"},
 		{Name: "converge-always-applies", File: "roundrobin/rebalancer.go", Old: "\tif !changed {\n\t\treturn false\n\t}\n\trb.normalizeWeights()\n\trb.applyWeights()\n\treturn true\n}\n\nfunc (rb *Rebalancer) weightsGcd", New: "\t_ = changed\n\trb.normalizeWeights()\n\trb.applyWeights()\n\treturn true\n}\n\nfunc (rb *Rebalancer) weightsGcd", Expect: "C01.R8"},
+		{Name: "weight-stored-before-validation", File: "roundrobin/options.go", Old: "\t\tif w < 0 {\n\t\t\treturn errors.New(\"Weight should be >= 0\")\n\t\t}\n\t\ts.weight = w\n", New: "\t\ts.weight = w\n\t\tif w < 0 {\n\t\t\treturn errors.New(\"Weight should be >= 0\")\n\t\t}\n", Expect: "C01.R9"},
 	}
 }
